@@ -64,7 +64,9 @@ bool Hist::opSetRate(bool analog) {
     float pr = float0(prev, "POINT", "RATE"); float r;
     float arNow = float0(prev, "ANALOG", "RATE");
     if (!analog) { r = prs[rng.below(sizeof prs / sizeof prs[0])]; if (arNow != 0.f && !wild) r = arNow / (float)rng.range(1, (int)o.geti("maxsub", 6)); /* keep the sub-frame ratio small once the analog rate is known */ if (rng.chance(6)) r = 0.f; }
-    else { float base = pr != 0.f ? pr : 100.f; r = base * (float)rng.range(1, (int)o.geti("maxsub", 6)); if (rng.chance(5)) r = 0.f; else if (rng.chance(7)) r = base * 0.4f; }   // 0.4: an analog rate below half the point rate (ratio rounds to 0)
+    else { float base = pr != 0.f ? pr : 100.f; r = base * (float)rng.range(1, (int)o.geti("maxsub", 6));
+        { static const float fr[] = {30.3f, 7.7f, 47.95f, 23.976f, 30.3f, 47.95f}; static const int fk[] = {3, 3, 7, 15, 6, 14};   /* float ratios that land a hair below the integer */
+          for (int q = 0; q < 6; ++q) if (base == fr[q] && rng.chance(45)) { r = base * (float)fk[q]; break; } } if (rng.chance(5)) r = 0.f; else if (rng.chance(7)) r = base * 0.4f; }   // 0.4: an analog rate below half the point rate (ratio rounds to 0)
     // once frames are stored the sub-frame count is fixed by the data: a disciplined caller keeps ANALOG:RATE = POINT:RATE x sub-frames
     if (!wild && !prev.frames.empty()) {
         bool subs = false; for (size_t f = 0; f < prev.frames.size(); ++f) if (!prev.frames[f].subs.empty()) subs = true;
